@@ -179,6 +179,18 @@ def c06(rec):
         ranks = [r for _a, r, _p in q]
         if any(x > y for x, y in zip(ranks, ranks[1:])):
             out.append(('queue-rank-not-monotone', 'partition %d queue ranks %r' % (label, ranks)))
+        groups = {}
+        for a, _r, pend in q:
+            ap = bef['apps'].get(a)
+            if ap is not None and ap.get('alloc_path') is not None:
+                # running/pending as the queue saw it (after the cycle's first phases), not as before the cycle
+                groups.setdefault(tuple(ap['alloc_path']), []).append(((-ap['prio'], pend, ap['order']), a))
+        for path, seq in groups.items():
+            keys = [k for k, _a in seq]
+            if keys != sorted(keys):
+                out.append(('allocation-order-not-priority-running-firstcome',
+                            'partition %d allocation %r: instances appear as %r (keys %r)'
+                            % (label, list(path), [a for _k, a in seq], keys)))
         for i in range(len(q) - 1):
             a, r, _ = q[i]
             b, r2, _ = q[i + 1]
@@ -220,8 +232,10 @@ def c07(rec):
     return out
 
 
-def c08(rec):
+def c08(rec, state=None):
     out = []
+    state = state if state is not None else {}
+    tracked = state.get('srv', {})
     bef, aft = rec['before'], rec['after']
     pos, ranks, label_of = _queue_pos(rec)
     now = bef['now']
@@ -230,6 +244,13 @@ def c08(rec):
             continue
         if s['state'] == 'up':
             continue
+        since = s['since']
+        if sid in tracked and tracked[sid][0] == s['state'] and tracked[sid][1] != s['since']:
+            out.append(('server-state-since-changed-without-transition',
+                        'server %d has been %s since %r but the scheduler says since %r'
+                        % (sid, s['state'], tracked[sid][1], s['since'])))
+            since = tracked[sid][1]
+        s = dict(s, since=since)
         new = [a for a in aft['servers'][sid]['apps'] if a not in s['apps']]
         if new:
             out.append(('non-up-server-received-instance', 'server %d (%s) received %r' % (sid, s['state'], new)))
@@ -276,14 +297,26 @@ def c08(rec):
 ORACLES = {'C02': (lambda rec: []), 'C01': c01, 'C03': c03, 'C04': c04, 'C05': c05, 'C06': c06, 'C07': c07, 'C08': c08}
 
 
+STATE_NAMES = ['up', 'down', 'frozen']
+
+
 def run_oracle(pid, trace):
     out = []
-    state = {}
+    state = {'srv': {}}
     for i, rec in enumerate(trace):
         if rec.get('op') != 'Schedule':
+            # the harness's own record of server state transitions (independent of the scheduler's bookkeeping)
+            args = rec.get('args')
+            if args and args[0] == 'AddServer':
+                state['srv'][args[1]] = ('up', rec.get('now'))
+            elif args and args[0] == 'RemoveServer':
+                state['srv'].pop(args[1], None)
+            elif args and args[0] == 'SetState' and args[1] in state['srv']:
+                if state['srv'][args[1]][0] != STATE_NAMES[args[2]]:
+                    state['srv'][args[1]] = (STATE_NAMES[args[2]], args[3])
             continue
         fn = ORACLES[pid]
-        res = fn(rec, state) if fn is c04 else fn(rec)
+        res = fn(rec, state) if fn in (c04, c08) else fn(rec)
         for sig, what in res:
             out.append((sig, 'at op %d: %s' % (i, what)))
     return out
